@@ -12,7 +12,8 @@ from ..lean import DRIVER_BIN
 
 def scale_of(ctx, quick: float = 1.0, thorough: float = 8.0) -> float:
     import os
-    s = thorough if (ctx.thorough or ctx.widen) else quick
+    # a widened failing-input search in the quick tier uses 3x the quick budget (the thorough tier its own budget)
+    s = thorough if ctx.thorough else (min(thorough, quick * 3) if ctx.widen else quick)
     return s * float(os.environ.get("VERIF_BUDGET_SCALE", "1"))
 
 
